@@ -21,14 +21,14 @@ func a(s string) uint32 { return flx.U32(net.ParseIP(s)) }
 func newOp(g flx.V4) string { return fmt.Sprintf("new %x %d %x", g.Net, g.Ones, g.Gw) }
 
 var smallGeos = []flx.V4{
-	{Net: a("10.0.0.0"), Ones: 29, Gw: a("10.0.0.1")},        // 6 (gateway inside; .7 is handed out)
-	{Net: a("10.0.0.8"), Ones: 29, Gw: a("10.255.0.1")},      // 7 (gateway elsewhere)
-	{Net: a("192.168.7.4"), Ones: 30, Gw: a("192.168.7.5")},  // 2
+	{Net: a("10.0.0.0"), Ones: 29, Gw: a("10.0.0.1")},        // 5 (gateway inside)
+	{Net: a("10.0.0.8"), Ones: 29, Gw: a("10.255.0.1")},      // 6 (gateway elsewhere)
+	{Net: a("192.168.7.4"), Ones: 30, Gw: a("192.168.7.5")},  // 1
 	{Net: a("192.168.7.4"), Ones: 30, Gw: a("192.168.7.7")},  // 2
 	{Net: a("10.9.9.8"), Ones: 31, Gw: a("10.0.0.1")},        // 1
 	{Net: a("10.9.9.9"), Ones: 32, Gw: a("10.0.0.1")},        // 0
-	{Net: a("100.64.0.16"), Ones: 28, Gw: a("100.64.0.17")},  // 14
-	{Net: a("255.255.255.248"), Ones: 29, Gw: a("10.0.0.1")}, // 6: 255.255.255.255 is skipped, the walk wraps to 0.0.0.0
+	{Net: a("100.64.0.16"), Ones: 28, Gw: a("100.64.0.17")},  // 13
+	{Net: a("255.255.255.248"), Ones: 29, Gw: a("10.0.0.1")}, // 6: 255.255.255.255 is both the all-ones and the subnet broadcast; the walk wraps to 0.0.0.0
 }
 
 var largeGeos = []flx.V4{
